@@ -178,7 +178,12 @@ func vC13Session(c vSx) (res vC13Result) {
 	pmD := make([][]byte, len(pmsSx))
 	for i, p := range pmsSx {
 		pmT[i], pmD[i] = p.l[0].int(), vC13Data(p.l[1])
-		pm, err := NewPreparedMessage(pmT[i], pmD[i])
+		// the caller reuses its buffer afterwards: NewPreparedMessage must have kept its own copy
+		cp := append([]byte{}, pmD[i]...)
+		pm, err := NewPreparedMessage(pmT[i], cp)
+		for j := range cp {
+			cp[j] ^= 0x5a
+		}
 		if err == nil {
 			pms[i] = pm
 		}
